@@ -555,15 +555,17 @@ End L003.
 
 Lemma wfc_asc : forall b, wfc (asc b).
 Proof.
-  intro b. unfold wfc, asc. cbn [raw cp]. split; [discriminate|]. split.
+  intro b. unfold wfc, asc. cbn [raw cp valid]. split; [discriminate|]. split; [|split].
   - intros x [Hx|[]] _. subst. split; reflexivity.
+  - intros _. reflexivity.
   - intros _. reflexivity.
 Qed.
 
 Lemma wfc_high : forall p r v, r <> [] -> (forall b, In b r -> 128 <= b) -> 128 <= p -> wfc (mkch p r v).
 Proof.
-  intros p r v Hr Hb Hp. unfold wfc. cbn [raw cp]. split; [exact Hr|]. split.
+  intros p r v Hr Hb Hp. unfold wfc. cbn [raw cp valid]. split; [exact Hr|]. split; [|split].
   - intros b Hin Hlt. specialize (Hb b Hin). lia.
+  - intro Hlt. lia.
   - intro Hlt. lia.
 Qed.
 
@@ -690,7 +692,7 @@ Qed.
 
 Lemma wfc_last_blank : forall c, wfc c -> is_blank c = true <-> exists b, lastc (raw c) = Some b /\ (b = 32 \/ b = 9).
 Proof.
-  intros c (Hne & Hb & Hc). unfold is_blank, is_sp, is_tab. split.
+  intros c (Hne & Hb & Hc & _). unfold is_blank, is_sp, is_tab. split.
   - intro H. apply orb_prop in H.
     assert (Hlt : cp c < 128) by (destruct H as [H|H]; apply N.eqb_eq in H; lia).
     rewrite (Hc Hlt). cbn. exists (cp c). split; [reflexivity|]. destruct H as [H|H]; apply N.eqb_eq in H; auto.
@@ -2829,3 +2831,212 @@ Section A7.
     destruct (final && negb (ends_nl f)); [|exact Hf]. unfold ascl. intros c Hc. apply in_app_or in Hc. destruct Hc as [Hc|Hc]; [apply Hf; exact Hc|]. cbn in Hc. destruct Hc as [Hc|[]]. subst. apply ascc_nlc.
   Qed.
 End A7.
+
+(* ------------------------------------------------------------------------------------------------ *)
+(* ---------------- L010: re-lint after fix ---------------- *)
+
+(* does the fixer's scan drop a character of l ?  (a space that follows a space outside quotes) *)
+Fixpoint dbl (q : option N) (ps : bool) (l : list ch) : bool :=
+  match l with
+  | [] => false
+  | c :: t =>
+      match q with
+      | None => if is_quote c then dbl (Some (cp c)) false t
+                else if is_sp c then ps || dbl None true t else dbl None false t
+      | Some k => dbl (if cp c =? k then None else Some k) ps t
+      end
+  end.
+
+Lemma stable_nodbl : forall l q ps, l010_scan q ps l = l -> dbl q ps l = false.
+Proof.
+  induction l as [|c t IH]; intros q ps E; [reflexivity|]. cbn [l010_scan dbl] in *. destruct q as [k|].
+  - injection E as _ E2. apply IH. exact E2.
+  - destruct (is_quote c); [injection E as _ E2; apply IH; exact E2|]. destruct (is_sp c).
+    + destruct ps; cbn [app] in E.
+      * exfalso. pose proof (scan10_len t None true) as L. rewrite E in L. cbn [length] in L. lia.
+      * injection E as _ E2. cbn [orb]. apply IH. exact E2.
+    + injection E as _ E2. apply IH. exact E2.
+Qed.
+
+(* ---- runs of spaces ---- *)
+(* run counter after a text: 0 unless the text ends in spaces *)
+Fixpoint run_after (run : nat) (l : list ch) : nat :=
+  match l with [] => run | c :: t => if is_sp c then run_after (S run) t else run_after 0 t end.
+
+Lemma sp_runs_snoc : forall a c off run rs,
+  (is_sp c = true -> run_after run a = 0%nat) -> sp_runs off run rs (a ++ [c]) = sp_runs off run rs a.
+Proof.
+  induction a as [|d a IH]; intros c off run rs H.
+  - cbn [app sp_runs run_after] in *. destruct (is_sp c) eqn:E.
+    + rewrite (H eq_refl). cbn [Nat.leb Nat.eqb sp_runs]. reflexivity.
+    + cbn [sp_runs Nat.leb]. rewrite app_nil_r. reflexivity.
+  - cbn [app sp_runs run_after] in *. destruct (is_sp d).
+    + apply IH. exact H.
+    + f_equal. apply IH. exact H.
+Qed.
+
+Definition tailsp (cur : list ch) : bool := match cur with c :: _ => is_sp c | [] => false end.
+
+Lemma run_after_snoc : forall a c run, run_after run (a ++ [c]) = if is_sp c then S (run_after run a) else 0%nat.
+Proof. induction a as [|d a IH]; intros c run; cbn [app run_after]; [reflexivity|]. destruct (is_sp d); apply IH. Qed.
+
+Lemma run_after_rev : forall cur, tailsp cur = false -> run_after 0 (rev cur) = 0%nat.
+Proof.
+  intros [|c cur] H; [reflexivity|]. cbn [rev]. rewrite run_after_snoc. cbn [tailsp] in H. rewrite H. reflexivity.
+Qed.
+
+(* a run of two or more spaces lies inside the text *)
+Lemma sp_runs_bound : forall a off run rs m, (forall c, In c a -> (1 <= width c)%nat) -> (rs + run <= off)%nat ->
+  In m (sp_runs off run rs a) -> (m + 2 <= off + blen a)%nat.
+Proof.
+  induction a as [|c t IH]; intros off run rs m Hw Hinv H.
+  - cbn [sp_runs] in H. destruct (2 <=? run)%nat eqn:E; [|destruct H]. destruct H as [H|[]]. subst. apply Nat.leb_le in E. cbn [blen fold_right]. lia.
+  - rewrite blen_cons. assert (W : (1 <= width c)%nat) by (apply Hw; left; reflexivity).
+    assert (Ht : forall d, In d t -> (1 <= width d)%nat) by (intros d Hd; apply Hw; right; exact Hd).
+    cbn [sp_runs] in H. destruct (is_sp c).
+    + assert (G := IH (off + width c)%nat (S run) (if (run =? 0)%nat then off else rs) m Ht).
+      assert (G' : (m + 2 <= off + width c + blen t)%nat) by (apply G; [destruct (run =? 0)%nat eqn:E; [apply Nat.eqb_eq in E; lia|apply Nat.eqb_neq in E; lia]|exact H]). lia.
+    + apply in_app_or in H. destruct H as [H|H].
+      * destruct (2 <=? run)%nat eqn:E; [|destruct H]. destruct H as [H|[]]. subst. apply Nat.leb_le in E. lia.
+      * assert (G := IH (off + width c)%nat 0%nat rs m Ht). assert (G' : (m + 2 <= off + width c + blen t)%nat) by (apply G; [lia|exact H]). lia.
+Qed.
+
+(* ---- the parts of a line that the scan keeps entirely ---- *)
+Definition bb (b : N) : bool := (b =? 32) || (b =? 9).
+Definition skipb (l : list ch) (col : nat) : bool := (col <=? blen l)%nat && forallb bb (firstn col (encode l)).
+Definition okpart (L : list ch) (p : nat * list ch) : Prop := forall m, In m (sp_runs 0 0 0 (snd p)) -> skipb L (S (fst p + m)) = true.
+
+Lemma check_line_nil : forall n L, (forall p, In p (l010_parts None 0 0 [] L) -> okpart L p) -> l010_check_line n L = [].
+Proof.
+  intros n L H. unfold l010_check_line. induction (l010_parts None 0 0 [] L) as [|p ps IH]; [reflexivity|].
+  cbn [flat_map]. rewrite IH by (intros q Hq; apply H; right; exact Hq). rewrite app_nil_r.
+  assert (Hp := H p (or_introl eq_refl)). unfold okpart in Hp.
+  induction (sp_runs 0 0 0 (snd p)) as [|m ms IHm]; [reflexivity|]. cbn [flat_map].
+  assert (E := Hp m (or_introl eq_refl)). unfold skipb, bb in E. cbv zeta. rewrite E. cbn [app]. apply IHm. intros m' Hm'. apply Hp. right. exact Hm'.
+Qed.
+
+Lemma parts_ok : forall L x q i start cur,
+  dbl q (tailsp cur) x = false -> (q <> None -> cur = []) -> (cur <> [] -> okpart L (start, rev cur)) ->
+  forall p, In p (l010_parts q i start cur x) -> okpart L p.
+Proof.
+  intros L. induction x as [|c t IH]; intros q i start cur Hd Hq Hc p Hp.
+  - cbn [l010_parts] in Hp. destruct cur as [|d cur]; [destruct Hp|]. destruct Hp as [Hp|[]]. subst. apply Hc. discriminate.
+  - cbn [l010_parts dbl] in *. destruct q as [k|].
+    + assert (Ec : cur = []) by (apply Hq; discriminate). subst cur. cbn [tailsp] in Hd.
+      destruct (cp c =? k).
+      * apply (IH None _ _ [] Hd (fun _ => eq_refl) (fun Hx => False_ind _ (Hx eq_refl)) p Hp).
+      * apply (IH (Some k) _ _ [] Hd (fun _ => eq_refl) (fun Hx => False_ind _ (Hx eq_refl)) p Hp).
+    + destruct (is_quote c) eqn:Eq.
+      * apply in_app_or in Hp. destruct Hp as [Hp|Hp].
+        -- destruct cur as [|d cur]; [destruct Hp|]. destruct Hp as [Hp|[]]. subst. apply Hc. discriminate.
+        -- apply (IH (Some (cp c)) _ _ [] Hd (fun _ => eq_refl) (fun Hx => False_ind _ (Hx eq_refl)) p Hp).
+      * assert (Hd' : dbl None (is_sp c) t = false /\ (is_sp c = true -> tailsp cur = false)).
+        { destruct (is_sp c); [apply orb_false_elim in Hd; destruct Hd as [H1 H2]; split; [exact H2|intros _; exact H1]|split; [exact Hd|discriminate]]. }
+        destruct Hd' as [Hd1 Hd2].
+        refine (IH None _ _ (wr c :: cur) _ (fun Hx => False_ind _ (Hx eq_refl)) _ p Hp); [cbn [tailsp]; rewrite is_sp_wr; exact Hd1|].
+        intros _. cbn [rev]. destruct cur as [|d cur].
+        -- cbn [rev app]. intros m Hm. cbn [snd sp_runs] in Hm. destruct (is_sp (wr c)); cbn in Hm; destruct Hm.
+        -- intros m Hm. cbn [snd fst] in *. rewrite sp_runs_snoc in Hm.
+           ++ apply (Hc ltac:(discriminate) m). exact Hm.
+           ++ rewrite is_sp_wr. intro Hs. apply run_after_rev. apply Hd2. exact Hs.
+Qed.
+
+Lemma blank_noquote : forall c, is_blank c = true -> is_quote c = false.
+Proof.
+  intros c H. unfold is_blank, is_sp, is_tab in H. unfold is_quote. apply orb_prop in H.
+  destruct H as [H|H]; apply N.eqb_eq in H; rewrite H; reflexivity.
+Qed.
+
+Lemma parts_lead : forall a x i start cur, forallb is_blank a = true ->
+  l010_parts None i start cur (a ++ x) =
+  l010_parts None (i + blen a) (match cur, a with [], _ :: _ => i | _, _ => start end) (rev (map wr a) ++ cur) x.
+Proof.
+  induction a as [|c a IH]; intros x i start cur H.
+  - cbn [app blen fold_right map rev]. rewrite Nat.add_0_r. destruct cur; reflexivity.
+  - cbn in H. apply andb_prop in H. destruct H as [H1 H2]. cbn [app l010_parts]. rewrite (blank_noquote c H1).
+    rewrite IH by exact H2. rewrite blen_cons. cbn [map rev]. rewrite <- app_assoc. cbn [app].
+    replace (i + width c + blen a)%nat with (i + (width c + blen a))%nat by lia.
+    destruct cur; destruct a; reflexivity.
+Qed.
+
+Lemma dbl_head : forall c t ps, is_sp c = false -> dbl None ps (c :: t) = dbl None false (c :: t).
+Proof. intros c t ps H. cbn [dbl]. rewrite H. reflexivity. Qed.
+
+(* blank characters of a well-formed text are the single bytes 20 / 09 *)
+Lemma wf_blank : forall c, wfc c -> is_blank c = true -> wr c = c /\ width c = 1%nat /\ exists b, raw c = [b] /\ bb b = true.
+Proof.
+  intros c (Hne & Hb & Hc & Hv) H.
+  assert (Hlt : cp c < 128) by (unfold is_blank, is_sp, is_tab in H; apply orb_prop in H; destruct H as [H|H]; apply N.eqb_eq in H; lia).
+  split; [unfold wr; rewrite (Hv Hlt); reflexivity|]. unfold width. rewrite (Hc Hlt). split; [reflexivity|]. exists (cp c). split; [reflexivity|].
+  unfold bb. exact H.
+Qed.
+
+Lemma lead_facts : forall a, (forall c, In c a -> wfc c) -> forallb is_blank a = true ->
+  map wr a = a /\ blen a = length (encode a) /\ forallb bb (encode a) = true /\ (forall c, In c a -> (1 <= width c)%nat).
+Proof.
+  induction a as [|c a IH]; intros Hw Hb; [repeat split; intros c []|].
+  cbn in Hb. apply andb_prop in Hb. destruct Hb as [H1 H2].
+  destruct (wf_blank c (Hw c (or_introl eq_refl)) H1) as (W1 & W2 & b & W3 & W4).
+  destruct (IH (fun d Hd => Hw d (or_intror Hd)) H2) as (I1 & I2 & I3 & I4).
+  split; [cbn [map]; rewrite W1, I1; reflexivity|]. split; [rewrite blen_cons; unfold width; unfold encode in *; cbn [flat_map]; rewrite app_length, W3; cbn [length]; rewrite <- I2; reflexivity|].
+  split; [unfold encode in *; cbn [flat_map]; rewrite W3; cbn [app forallb]; rewrite W4, I3; reflexivity|].
+  intros d [Hd|Hd]; [subst; unfold width; rewrite W3; cbn [length]; lia|apply I4; exact Hd].
+Qed.
+
+Lemma firstn_app_le : forall {A} (a b : list A) n, (n <= length a)%nat -> firstn n (a ++ b) = firstn n a.
+Proof. intros A a b n H. rewrite firstn_app. replace (n - length a)%nat with 0%nat by lia. cbn [firstn]. apply app_nil_r. Qed.
+
+Lemma forallb_firstn : forall {A} (p : A -> bool) l n, forallb p l = true -> forallb p (firstn n l) = true.
+Proof.
+  intros A p. induction l as [|x l IH]; intros n H; [destruct n; reflexivity|]. destruct n as [|n]; [reflexivity|].
+  cbn in *. apply andb_prop in H. destruct H as [H1 H2]. rewrite H1. cbn. apply IH. exact H2.
+Qed.
+
+Lemma blen_app : forall a b, blen (a ++ b) = (blen a + blen b)%nat.
+Proof. induction a as [|c a IH]; intro b; [reflexivity|]. cbn [app]. rewrite !blen_cons, IH. lia. Qed.
+
+Lemma stable_line_clears : forall n L, (forall c, In c (take_l is_blank L) -> wfc c) -> l010_fix_line L = L -> l010_check_line n L = [].
+Proof.
+  intros n L Hw Hst. apply check_line_nil. unfold l010_fix_line in Hst.
+  destruct (trim_l is_blank L) as [|c0 r0] eqn:E.
+  - intros p Hp. apply (parts_ok L L None 0%nat 0%nat [] (stable_nodbl L None false Hst) (fun Hx => False_ind _ (Hx eq_refl)) (fun Hx => False_ind _ (Hx eq_refl)) p Hp).
+  - set (lead := take_l is_blank L) in *.
+    assert (EL : L = lead ++ c0 :: r0) by (rewrite <- E; symmetry; apply take_trim_l).
+    rewrite EL in Hst at 1. apply app_inv_head in Hst.
+    pose proof (take_l_all is_blank L) as Hlb. fold lead in Hlb.
+    destruct (lead_facts lead Hw Hlb) as (F1 & F2 & F3 & F4).
+    pose proof (trim_l_head _ _ _ _ E) as Hc0.
+    intros p Hp. rewrite EL in Hp at 1. rewrite parts_lead in Hp by exact Hlb. rewrite app_nil_r in Hp.
+    refine (parts_ok L (c0 :: r0) None _ _ (rev (map wr lead)) _ (fun Hx => False_ind _ (Hx eq_refl)) _ p Hp).
+    + rewrite dbl_head by (apply not_blank_not_sp; exact Hc0). apply stable_nodbl. exact Hst.
+    + intros _. rewrite rev_involutive. rewrite F1. intros m Hm. cbn [fst snd] in *.
+      assert (Bm : (m + 2 <= 0 + blen lead)%nat) by (apply (sp_runs_bound lead 0%nat 0%nat 0%nat m F4 (le_n 0) Hm)).
+      replace (match lead with [] => 0%nat | _ :: _ => 0%nat end + m)%nat with m by (destruct lead; lia).
+      unfold skipb. apply andb_true_intro. split.
+      * apply Nat.leb_le. rewrite EL. rewrite blen_app. lia.
+      * rewrite EL. unfold encode. rewrite flat_map_app. fold (encode lead). rewrite firstn_app_le by lia. apply forallb_firstn. exact F3.
+Qed.
+
+Theorem l010_fix_clears : forall t, wft t -> l010_check (l010_fix t) = [].
+Proof.
+  intros t Hw. unfold l010_check. change (l010_fix t) with (per_line l010_fix_line t).
+  rewrite split_per_line by exact l010_line_keeps.
+  apply on_lines_nil. intros n l Hl. apply in_map_iff in Hl. destruct Hl as (l0 & E & Hl0). subst.
+  apply stable_line_clears; [|apply l010_line_idem].
+  intros c Hc. apply take_l_incl in Hc.
+  assert (W0 : forall d, In d l0 -> wfc d) by (intros d Hd; apply Hw; eapply split_incl; eassumption).
+  unfold l010_fix_line in Hc. destruct (trim_l is_blank l0) as [|c0 r0] eqn:E0.
+  - apply l010_scan_in in Hc. destruct Hc as (d & Hd & Ed). subst.
+    (* only blank characters matter: a well-formed blank is valid, so wr keeps it *)
+    specialize (W0 d Hd). apply trim_l_nil_iff in E0. rewrite forallb_forall in E0. specialize (E0 d Hd).
+    destruct (wf_blank d W0 E0) as (Wd & _). rewrite Wd. exact W0.
+  - apply in_app_or in Hc. destruct Hc as [Hc|Hc]; [apply W0; eapply take_l_incl; exact Hc|].
+    (* characters of the scanned rest that belong to the leading blank run: there are none beyond lead, but wfc is only
+       needed for members of take_l; members coming from the scan are rewritten input characters *)
+    apply l010_scan_in in Hc. destruct Hc as (d & Hd & Ed). subst.
+    assert (Wd : wfc d) by (apply W0; eapply trim_l_incl; rewrite E0; exact Hd).
+    destruct (valid d) eqn:V; [unfold wr; rewrite V; exact Wd|].
+    unfold wr. rewrite V. destruct Wd as (W1 & W2 & W3 & W4).
+    assert (Hge : 128 <= cp d) by (destruct (N.lt_ge_cases (cp d) 128) as [Hlt|Hge]; [rewrite (W4 Hlt) in V; discriminate|exact Hge]).
+    apply wfc_high; [discriminate| |exact Hge]. intros b [Hb|[Hb|[Hb|[]]]]; subst; lia.
+Qed.
